@@ -1,6 +1,6 @@
 From Coq Require Extraction ExtrOcamlBasic.
-From GV Require Import Common.Outcome Base.Grammar Base.Analyses LR.Automaton C17.Model C17.CostMirror.
+From GV Require Import Common.Outcome Base.Grammar Base.Analyses LR.Automaton C17.Model C17.CostMirror C17.QueryModel.
 Extraction Language OCaml.
 Extraction "model.ml" mkGrammar mkDump wf_grammar nullable_ref first_ref reach_ref
   follow_strict_ref follow_textbook_ref tcost certified_costs search cert_ok rule_min_costs_run
-  rule_min_costs_fx rule_max_costs_fx.
+  rule_min_costs_fx rule_max_costs_fx min_sentences_m.
